@@ -38,7 +38,10 @@
 // deliberately uses the held value's type as the target type: nbt/decode.go indirect());
 // merge semantics of NBT maps/struct members absent from the input (not driven); FixedBitSet of
 // zero length and destinations of a different length than the value (the length is fixed by
-// protocol context); lengths above the range of the LEN type.
+// protocol context); lengths above the range of the LEN type; a Builder packet that holds only the
+// fields written since the previous Packet call (counted, build part). Not driven: sources that
+// return the last bytes of the stream together with io.EOF (every decode here is followed by a
+// sentinel tail; the statement does not say that a field ends the stream).
 package main
 
 import (
